@@ -164,7 +164,11 @@ def run(ctx, R, tier):
     from ..report import Rules
     from . import c14
     R14 = Rules("C14")
-    c14.run(ctx, R14, tier)
+    try:
+        c14.run(ctx, R14, tier)
+    except AnalysisError as _shared_x:
+        # the other property's own anchors are gone on this tree: its check reports that; what it produced before is still shared
+        R.note("obligations shared from C14 are incomplete on this tree: %s" % _shared_x)
     for o in R14.obs:
         if o.key == "C14-R8|NameServer.list|literal-matching":
             R.add("C20-R1", "index-page|listing-anchored-like-the-gate", "the name server applies the expose pattern to the listing with match(), as the gateway's own check does", o.ok, o.loc,
